@@ -197,7 +197,10 @@ def heap_layer(v, tier, seed):
         cfg = cfg_from("TimerHeap_q.cfg", "TimerHeap_%s.cfg" % tag, NT=str(nt), Keys=keys, Pairs=le, C=str(c), MaxSeg=str(maxseg))
         jobs.append(("TimerHeap_%s (NT=%d Keys=%s pairs=%s C=%d: segments 0..%d)" % (tag, nt, keys, le, c, maxseg), cfg, None))
     # (c) spec mutants (non-vacuity)
-    for mut, base in (("left_child", "q"), ("never_right", "q"), ("stale_backptr", "q4"), ("no_needs_program", "q"), ("cap_no_table", "c4")):
+    heap_mutants = (("left_child", "q"), ("stale_backptr", "q4"), ("cap_no_table", "c4"))
+    if tier == "thorough":
+        heap_mutants += (("never_right", "q"), ("no_needs_program", "q"))
+    for mut, base in heap_mutants:
         if base == "c4":
             cfg = cfg_from("TimerHeap_q.cfg", "TimerHeap_mut_%s.cfg" % mut, NT="5", Keys="{0, 1}", Pairs='"eq"', C="4", MaxSeg="3", Mut='"%s"' % mut)
         elif base == "q4":
@@ -222,7 +225,7 @@ def heap_layer(v, tier, seed):
                 raise Broken("spec mutant %s of TimerHeap not refuted: the invariants are vacuous in these bounds" % mut)
             v.notes.setdefault("spec_mutants_refuted", []).append({"spec": "TimerHeap", "mutant": mut, "by": r.violated})
     # (d) long random behaviours, up to 40 timers: segments grow to 5 and shrink back; replayed with digests
-    nproc, nsim, simlen = (4, 10, 260) if tier == "quick" else (8, 50, 400)
+    nproc, nsim, simlen = (2, 20, 260) if tier == "quick" else (8, 50, 400)
     csvs = [os.path.join(d, "heap_sim_%d.csv" % i) for i in range(nproc)]
 
     def one(i):
@@ -405,7 +408,7 @@ def timer_traces(v, tier, seed):
         return
     drv = build_driver("drv_timer")
     d = rundir(PROP)
-    ntr, ntimers, span = (4, 30, 400) if tier == "quick" else (16, 40, 600)
+    ntr, ntimers, span, batch = (4, 30, 400, 4) if tier == "quick" else (16, 40, 600, 4)
     seeds = [seed * 100000 + 5000 + i for i in range(ntr)]
     tot = collections.Counter()
 
@@ -416,44 +419,51 @@ def timer_traces(v, tier, seed):
             if os.path.exists(f):
                 os.unlink(f)
         rc, out, err = sh([drv, str(s), str(ntimers), str(span), fail, tr], timeout=180)
-        if rc != 0:
-            return s, rc, out, err, fail, None, None, ""
-        j = json.loads(out.strip().splitlines()[-1])
-        hdr = tr + ".hdr.ndjson"
-        with open(hdr, "w") as f:
-            f.write(json.dumps({"e": "Header", "nt": max(1, j["trace_slots"]), "seed": s}) + "\n")
-            f.write(open(tr).read())
-        os.unlink(tr)
-        r, why = validate_timer_trace(hdr, "C11_trace_%d" % s)
-        return s, rc, out, err, fail, j, r, why
+        j = json.loads(out.strip().splitlines()[-1]) if rc == 0 else None
+        return s, rc, out, err, fail, j, tr
     with concurrent.futures.ThreadPoolExecutor(4) as ex:
         res = list(ex.map(one, seeds))
-    for s, rc, out, err, fail, j, r, why in res:
+    good = []
+    for s, rc, out, err, fail, j, tr in res:
         if rc in (2, 70, 71, 124):
             p = save_replay(PROP, "timer_seed%d.json" % s, src=fail) if os.path.exists(fail) else \
                 save_replay(PROP, "timer_seed%d.json" % s, json.dumps({"seed": s, "ntimers": ntimers, "span_ms": span, "stderr": err[-3000:]}))
             v.violation("real timers (trace mode, seed %d): %s" % (s, " ".join(l for l in err.splitlines() if "ORACLE-FAIL" in l or "CRASH" in l)[:1200]), p)
-            continue
-        if rc != 0:
+        elif rc != 0:
             raise Broken("drv_timer (trace mode) failed rc=%d: %s" % (rc, err[-1000:]))
-        hdr = os.path.join(d, "timertrace_%d.ndjson.hdr.ndjson" % s)
-        if r.accepted and not r.violated:
-            v.traces += 1
-            v.states += r.distinct
-            v.transitions += r.generated
-            tot["traces_accepted"] += 1
-            tot["records"] += j["trace_records"]
+        else:
             if not j["trace_exact"]:
                 v.drift.append("timer trace seed %d: a probe record referred to a timer never seen armed (probes out of date?)" % s)
-            if tot["traces_accepted"] == 1:
-                v.samples.append({"manager_trace_accepted": {"seed": s, "records": j["trace_records"],
+            good.append((s, j, tr))
+    # the recorded executions are validated a few per TLC run (a reset record between them)
+    for k in range(0, len(good), batch):
+        part = good[k:k + batch]
+        hdr = os.path.join(d, "timertrace_batch%d.ndjson" % k)
+        with open(hdr, "w") as f:
+            f.write(json.dumps({"e": "Header", "nt": max(1, max(j["trace_slots"] for _, j, _ in part)), "seeds": [s for s, _, _ in part]}) + "\n")
+            for i, (s, j, tr) in enumerate(part):
+                if i:
+                    f.write('{"e":"reset","seed":%d}\n' % s)
+                f.write(open(tr).read())
+                os.unlink(tr)
+        r, why = validate_timer_trace(hdr, "C11_trace_%d" % k)
+        if r.accepted and not r.violated:
+            v.traces += len(part)
+            v.states += r.distinct
+            v.transitions += r.generated
+            tot["traces_accepted"] += len(part)
+            tot["records"] += sum(j["trace_records"] for _, j, _ in part)
+            if k == 0:
+                v.samples.append({"manager_trace_accepted": {"seed": part[0][0], "records": part[0][1]["trace_records"],
                                                              "excerpt": open(hdr).read().splitlines()[1:9]}})
             os.unlink(hdr)
         elif r.violated == "NoLawBroken":
-            p = save_replay(PROP, "timertrace_seed%d.ndjson" % s, src=hdr)
-            v.violation("recorded execution of the real timer machinery is not a behaviour of spec/TimerTrace.tla: %s" % why, p)
+            p = save_replay(PROP, "timertrace_seed%d.ndjson" % part[0][0], src=hdr)
+            v.violation("a recorded execution of the real timer machinery (drv_timer seeds %s) is not a behaviour of spec/TimerTrace.tla: %s"
+                        % ([s for s, _, _ in part], why), p)
         elif r.violated == "NoDrift":
-            v.drift.append("timer trace seed %d not explained structurally (probes / TimerTrace.tla out of date): %s" % (s, why[:500]))
+            v.drift.append("timer traces (seeds %s) not explained structurally (probes / TimerTrace.tla out of date): %s"
+                           % ([s for s, _, _ in part], why[:500]))
         else:
             raise Broken("unexpected result of trace validation: %s\n%s" % (r.violated, r.out[-2000:]))
     v.notes["trace_validation"] = dict(tot)
@@ -511,6 +521,7 @@ def run(tier, seed):
 
 
 def replay(path, seed):
+    path = os.path.abspath(path)
     if path.endswith(".vec"):
         drv = build_driver("drv_timerheap")
         rc, out, err = sh([drv, path], timeout=900)
